@@ -754,6 +754,21 @@ class C05(SimCheck):
             if not expect([["after", h, it, ts] for h in H], "after-step"):
                 return fails
             it += 1
+        # "... and that event's timestamp": the callback an executed event made reported the instant the event was
+        # due (C01); the hooks that follow it must be given that very instant
+        if cfg["hasTimer"]:
+            pending = []
+            for e in impl["trace"]:
+                if e[0] == "cb" and e[2] in ("timer", "packet", "telemetry"):
+                    pending.append(e)
+                elif e[0] == "after":
+                    bad = [c for c in pending if is_int(c[4]) and c[4] != e[3]]
+                    if bad:
+                        fails.append(("C05:after-step-timestamp", f"the after-step hook of {e[1]} for iteration {e[2]} was given "
+                                      f"timestamp {e[3]} but the event executed in that iteration ran {bad[0][:5]}"))
+                        break
+                    if e[1] == H[-1]:
+                        pending = []
         done = completed(case, impl)
         if done:
             fin = lc[pos:pos + n]
